@@ -65,6 +65,58 @@ def build_c18(thorough, rnd):
     return scs
 
 
+def ret_wrapped(text):
+    """Does the return entry of an emitted docstring (any style, possibly inside code) run over more than one prose line?"""
+    lines = text.splitlines()
+    for i, ln in enumerate(lines):
+        st = ln.strip()
+        if st.startswith((":returns:", ":return:")):
+            nxt = lines[i + 1] if i + 1 < len(lines) else ""
+            if nxt.strip() and not nxt.strip().startswith(":") and len(nxt) - len(nxt.lstrip()) > len(ln) - len(ln.lstrip()):
+                return True
+        if st in ("Returns", "Returns:") :
+            body = []
+            for x in lines[i + 1:]:
+                if not x.strip():
+                    if body:
+                        break
+                    continue
+                if set(x.strip()) == {"-"}:
+                    continue
+                body.append(x)
+            ind = len(ln) - len(ln.lstrip())
+            deeper = [x for x in body if len(x) - len(x.lstrip()) > ind]
+            if (st == "Returns" and len(deeper) >= 2) or (st == "Returns:" and len(deeper) >= 2):
+                return True
+    return False
+
+
+def build_c18_sweep(thorough, rnd):
+    """Scenarios for the width sweep: descriptions whose entries carry prose *and* a default (the `Defaults to` sentence is
+    where a line break matters most), each rendered without and with word wrap.  Run once per consecutive line length, so
+    that the break falls on every position of the announcement for some width."""
+    ts = D.tables(0, seed())
+    single = CC.load_domain("single")
+    cand = [a for a in single if (a["params"] and a["params"][0]["dbase"] == "own" and a["params"][0]["def"] != "absent")
+            or (a["ret"]["present"] and a["ret"]["dbase"] == "own" and a["ret"]["def"] != "absent")]
+    cand = rnd.sample(cand, min(len(cand), 90 if thorough else 36))
+    scs = []
+    for kind in CC.KINDS:
+        o = {"dd": True}
+        if kind == "method":
+            o["ftype"] = "self"
+        acts = [("emit", kind, dict(o, wrap=False)), ("parse",), ("reset",), ("emit", kind, dict(o, wrap=True)), ("parse",)]
+        for j, air in enumerate(cand):
+            if kind == "argparse" and not CC.argparse_domain(air):
+                continue
+            scs.append(CC._sc(len(scs), ts[j % len(ts)], air, acts))
+    return scs
+
+
+def sweep_widths(thorough):
+    return [str(x) for x in (range(36, 132) if thorough else range(44, 104))]
+
+
 def run(prop, propose=False, replay=None):
     timer = Timer()
     thorough = tier() == "thorough"
@@ -89,6 +141,9 @@ def run(prop, propose=False, replay=None):
         with open(replay) as f:
             rp = json.load(f)
         tables = {t["id"]: t for t in D.tables(6, rp.get("seed", seed()))}
+        tid = rp["scenario"]["table_id"]
+        if tid.startswith("S") and tid[1:].isdigit():
+            tables[tid] = D.sweep_table(int(tid[1:]))
         scs = [dict(rp["scenario"], table=tables[rp["scenario"]["table_id"]])]
         env_runs = [(rp.get("env") or {}, scs)]
     elif prop == "C18":
@@ -96,14 +151,35 @@ def run(prop, propose=False, replay=None):
         env_runs = []
         for ll in line_lengths(thorough):
             env_runs.append(({} if ll == "unset" else {"DOCTRANS_LINE_LENGTH": ll}, scs))
+        sweep = build_c18_sweep(thorough, rnd)
+        for ll in sweep_widths(thorough):
+            env_runs.append(({"DOCTRANS_LINE_LENGTH": ll, "VERIF_SWEEP": "1"}, sweep))
     else:
         scs = CC.build(prop, thorough, rnd)
         env_runs = [({}, scs)]
     log("mc done, scenarios=%d" % sum(len(g) for _, g in env_runs), timer)
     traces, metas, replays = [], {}, {}
     crashes = []
+    # the sweep groups are small: run several interpreters side by side
+    from concurrent.futures import ThreadPoolExecutor
+
+    def _sweep_run(eg):
+        env, group = eg
+        e2 = {k: v for k, v in env.items() if k != "VERIF_SWEEP"}
+        return CC.run_scenarios_env([dict(s, table_id=s["table"]["id"]) for s in group], dict(e2, VERIF_WORKER_PROCS="1"))
+
+    sweep_groups = [eg for eg in env_runs if eg[0].get("VERIF_SWEEP")]
+    with ThreadPoolExecutor(max_workers=16) as ex:
+        sweep_res = dict(zip([eg[0]["DOCTRANS_LINE_LENGTH"] for eg in sweep_groups], ex.map(_sweep_run, sweep_groups)))
     for env, group in env_runs:
-        if env or prop == "C18":
+        if env.get("VERIF_SWEEP"):
+            res, err = sweep_res[env["DOCTRANS_LINE_LENGTH"]]
+            env = {k: v for k, v in env.items() if k != "VERIF_SWEEP"}
+            tag = "W" + env["DOCTRANS_LINE_LENGTH"] + "-"
+            if res is None:
+                crashes.append((env, err))
+                continue
+        elif env or prop == "C18":
             res, err = CC.run_scenarios_env([dict(s, table_id=s["table"]["id"]) for s in group], env)
             tag = "L" + env.get("DOCTRANS_LINE_LENGTH", "u") + "-"
             if res is None:
@@ -144,6 +220,12 @@ def run(prop, propose=False, replay=None):
             bad = (l, cl, slot) in failset
             feat["prior_fail"] = first_fail is not None and first_fail < l and feat.get("hop", 1) >= 2
             feat["ll"] = meta["env"].get("DOCTRANS_LINE_LENGTH", "unset")
+            if feat.get("step") == "parse":
+                # did word wrap break the line between "Defaults" and "to" in the text this step parses?
+                conc = (replays.get(tr["id"]) or {}).get("concrete") or []
+                prev_emit = conc[l - 2] if 2 <= l <= len(conc) + 1 and conc[l - 2].get("a") == "emit" else None
+                feat["retwrap"] = bool(prev_emit and ret_wrapped(str(prev_emit.get("text") or "")))
+                feat["brk"] = bool(prev_emit and any(x.rstrip().lower().endswith("defaults") for x in str(prev_emit.get("text") or "").splitlines()))
             seen.add((l, cl, slot))
             if not bad:
                 if propose:
